@@ -126,6 +126,17 @@ pub fn receiver_units(quick: bool) -> Vec<Unit> {
                     }
                     // a fragment that agrees with the genuine header in every field is not a disagreeing fragment (first write wins is all that can be asked)
                     hostile.retain(|h| { let g = &base[0].dg; !(h.channel_id == g.channel_id && h.window_parent_lead == g.window_parent_lead && h.channel_parent_lead == g.channel_parent_lead && h.fragment_id_last == g.fragment_id_last && h.fragment_id <= h.fragment_id_last && (h.fragment_id == h.fragment_id_last || h.data.len() == FRAG)) });
+                    // fragments of a neighbouring packet that claims the largest fragment counts the header can express (it cannot be held in
+                    // memory and is refused; it names the genuine packet as its parent, so it cannot be delivered before it): before, between
+                    // and after the genuine fragments
+                    let huge: Vec<Datagram> = [65535u16, 65534, 32768].iter().flat_map(|&last| [0u16, last].into_iter().map(move |f| (f, last))).map(|(f, last)| Datagram { sequence_id: 0x000F_FFFF, channel_id: 4, window_parent_lead: 1, channel_parent_lead: 0, fragment_id: f, fragment_id_last: last, data: junk[..if f == last { 7 } else { FRAG }].into() }).collect();
+                    permutations(n, &mut |perm| {
+                        for pos in 0..=n { for h in huge.iter() {
+                            let mut items: Vec<Item> = perm.iter().map(|&i| base[i].clone()).collect();
+                            items.insert(pos, Item { dg: h.clone(), hostile: true });
+                            feed(&items, &p_main, &p_nb, acc, "fragment of a neighbouring packet claiming up to 65536 fragments");
+                        } }
+                    });
                     permutations(n, &mut |perm| {
                         for pos in 1..=n { for h in hostile.iter() {
                             let mut items: Vec<Item> = perm.iter().map(|&i| base[i].clone()).collect();
